@@ -50,7 +50,9 @@ impl SpawnSeam for Pool {
 #[derive(Debug)]
 pub struct Chunk {
     pub bytes: Vec<u8>,
-    pub fds: Vec<OwnedFd>,
+    /// fds with the offset (within `bytes`) of the byte they travel with: a read delivers an fd
+    /// when it consumes that byte (as SCM_RIGHTS data is tied to the first byte of its sendmsg).
+    pub fds: Vec<(usize, OwnedFd)>,
 }
 
 /// How `sendmsg` answers.
@@ -167,6 +169,23 @@ impl ChanHandle {
     /// Make bytes readable (and wake the reader).
     pub fn push(&self, bytes: &[u8], fds: Vec<OwnedFd>) {
         if bytes.is_empty() && fds.is_empty() {
+            return;
+        }
+        let w = {
+            let mut c = self.0.lock().unwrap();
+            c.q.push_back(Chunk {
+                bytes: bytes.to_vec(),
+                fds: fds.into_iter().map(|f| (0, f)).collect(),
+            });
+            c.read_waker.take()
+        };
+        if let Some(w) = w {
+            w.wake();
+        }
+    }
+    /// Make bytes readable, with fds attached to given byte offsets of this chunk.
+    pub fn push_with_fds(&self, bytes: &[u8], fds: Vec<(usize, OwnedFd)>) {
+        if bytes.is_empty() {
             return;
         }
         let w = {
@@ -342,7 +361,16 @@ impl Future for RecvFut<'_> {
                 }
             };
             this.buf[..n].copy_from_slice(&chunk.bytes[..n]);
-            let fds = std::mem::take(&mut chunk.fds);
+            let mut fds = vec![];
+            let mut rest = vec![];
+            for (off, fd) in std::mem::take(&mut chunk.fds) {
+                if off < n {
+                    fds.push(fd);
+                } else {
+                    rest.push((off - n, fd));
+                }
+            }
+            chunk.fds = rest;
             if n < chunk.bytes.len() {
                 chunk.bytes.drain(..n);
                 c.q.push_front(chunk);
@@ -449,7 +477,7 @@ impl Future for SendFut<'_> {
         }
         let chunk = Chunk {
             bytes: this.buf[..n].to_vec(),
-            fds,
+            fds: fds.into_iter().map(|f| (0, f)).collect(),
         };
         let w = if c.manual_release {
             c.held.push_back(chunk);
